@@ -434,7 +434,8 @@ impl<Octets: AsRef<[u8]>> fmt::Display for UncertainName<Octets> {
     fn fmt(&self, f: &mut fmt::Formatter<'_>) -> fmt::Result {
         match *self {
             UncertainName::Absolute(ref name) => {
-                write!(f, "{}.", name)
+                // The root name is already displayed as a single dot.
+                name.fmt_with_dot().fmt(f)
             }
             UncertainName::Relative(ref name) => name.fmt(f),
         }
